@@ -3,6 +3,7 @@
 // Op language (stateful; one chain per `reset`):
 //
 //	reset <era>              fresh Committee; era 0 = old CR rules, era 1 = ChangeCommitteeNewCRHeight 0,
+//	                         era 3 = era 0 with CRVotingStartHeight 0 (rb 0 is a real rollback, not a reset);
 //	                         era 2 = era 0 with ProposalCRVotingPeriod 11 (proposal windows reach over a committee change)
 //	blk <h> <tx> <tx> …      ProcessBlock of a block built from symbolic transactions; a transaction that
 //	                         the (real or mirrored) context check rejects against the state before the block
@@ -157,6 +158,10 @@ func newWorld(era int) *world {
 	p.CRConfiguration.ChangeCommitteeNewCRHeight = 100000000
 	if era == 1 {
 		p.CRConfiguration.ChangeCommitteeNewCRHeight = 0
+	}
+	if era == 3 {
+		// CR voting from the first block: a rollback to height 0 goes through Committee.RollbackTo(0)
+		p.CRConfiguration.CRVotingStartHeight = 0
 	}
 	if era == 2 {
 		// a CR-vote window longer than the voting period: a proposal registered on the last allowed
@@ -820,13 +825,25 @@ func exec(t []string) string {
 		}
 		return out
 	case <-time.After(90 * time.Second):
+		if t[0] == "rb" {
+			// a rollback that does not return (it still holds the committee's lock): an answer of the implementation
+			dead = true
+			return "hang"
+		}
 		fmt.Fprintln(os.Stderr, "HARNESS BUG: harness: Committee call blocked on op", strings.Join(t, " "))
 		os.Exit(3)
 	}
 	return ""
 }
 
+var dead bool // the committee under test is blocked for ever; every op until the next reset answers "dead"
+
 func exec1(t []string) string {
+	if t[0] == "reset" {
+		dead = false
+	} else if dead {
+		return "dead"
+	}
 	if os.Getenv("HX_STACK") != "" {
 		defer func() {
 			if r := recover(); r != nil {
@@ -952,6 +969,12 @@ func oracle(t []string, out string) *hx.Violation {
 	}
 	if out == "panic" {
 		return &hx.Violation{Kind: "rollback-panic", Detail: hx.LastPanic()}
+	}
+	if out == "hang" {
+		return &hx.Violation{Kind: "rollback-hangs", Detail: "Checkpoint.OnRollbackTo(" + t[1] + ") did not return within 90 s"}
+	}
+	if out == "dead" {
+		return nil
 	}
 	f := strings.Fields(lastVerdict)
 	if len(f) < 2 || f[0] != "diff" {
